@@ -373,3 +373,147 @@ class Gen:
         if t[0] == 'array':
             return ['array', [self.leaf(t[1], py, var) for _ in range(rng.randint(1, 2))]]
         return ['struct', [[f, self.leaf(ft, py, var)] for f, ft in t[1]]]
+
+
+# ------------------------------------------------------------------------------------------------
+# Coq interface: DAG -> Gallina expression (with let-sharing), printed node -> neutral term
+
+class Names:
+    """Per-case numbering of variable and field names (U n / field n in the model)."""
+
+    def __init__(self):
+        self.vars, self.fields = {}, {}
+
+    def var(self, s):
+        if s.startswith('__cse_') and s[6:].isdigit():
+            return f'(C {int(s[6:])})'
+        return f'(U {self.vars.setdefault(s, len(self.vars))})'
+
+    def field(self, s):
+        return str(self.fields.setdefault(s, len(self.fields)))
+
+    def var_back(self, v):
+        if v[0] == 'C':
+            return f'__cse_{v[1]}'
+        inv = {n: s for s, n in self.vars.items()}
+        return inv[v[1]]
+
+    def field_back(self, n):
+        return {k: s for s, k in self.fields.items()}[n]
+
+
+_BIN = {'+': 'Add', '-': 'Sub', '*': 'Mul'}
+_UN = {'-': 'Neg', '!': 'Not'}
+_CMP = {'<': 'Lt', '<=': 'Le', '>': 'Gt', '>=': 'Ge', '==': 'Eq', '!=': 'Ne'}
+
+
+def head_to_coq(h, names):
+    k = h[0]
+    if k == 'I32':
+        return f'(HI32 ({h[1]}))'
+    if k in ('True', 'False', 'If', 'MakeArray', 'ArrayLen', 'CastToArray', 'ToArray', 'ToStream'):
+        return 'H' + k
+    if k == 'Bin':
+        return f'(HBin {_BIN[h[1]]})'
+    if k == 'Un':
+        return f'(HUn {_UN[h[1]]})'
+    if k == 'Cmp':
+        return f'(HCmp {_CMP[h[1]]})'
+    if k in ('Let', 'Ref', 'StreamMap', 'StreamFilter'):
+        return f'(H{k} {names.var(h[1])})'
+    if k == 'StreamFold':
+        return f'(HStreamFold {names.var(h[1])} {names.var(h[2])})'
+    if k == 'MakeStruct':
+        return '(HMakeStruct [' + '; '.join(names.field(f) for f in h[1]) + '])'
+    if k == 'GetField':
+        return f'(HGetField {names.field(h[1])})'
+    raise ReadError(f'head outside the model: {h}')
+
+
+def dag_to_coq(dag, names, body):
+    """`let n1 := Node .. in let n2 := .. in <body applied to the root variable>` (children first)."""
+    order = []
+    seen = set()
+
+    def go(i):
+        if i in seen:
+            return
+        seen.add(i)
+        for c in dag['nodes'][str(i)]['c']:
+            go(c)
+        order.append(i)
+
+    import sys
+    sys.setrecursionlimit(max(sys.getrecursionlimit(), 20000))
+    go(dag['root'])
+    out = []
+    for i in order:
+        n = dag['nodes'][str(i)]
+        cs = '[' + '; '.join(f'n{c}' for c in n['c']) + ']'
+        out.append(f'let n{i} := Node {i} {"true" if n["strm"] else "false"} {head_to_coq(n["h"], names)} {cs} in')
+    return ' '.join(out) + ' ' + body.replace('ROOT', f'n{dag["root"]}')
+
+
+def term_to_coq(t, names):
+    h, cs = t
+    return f'(Node 0 false {head_to_coq(h, names)} [' + '; '.join(term_to_coq(c, names) for c in cs) + '])'
+
+
+_RBIN = {v: k for k, v in _BIN.items()}
+_RUN = {v: k for k, v in _UN.items()}
+_RCMP = {v: k for k, v in _CMP.items()}
+
+
+def coq_to_term(v, names):
+    """Parsed `Node id strm head children` (core.parse_coq_value) -> neutral term."""
+    assert v[0] == 'Node', v
+    h, cs = v[3], v[4]
+    if isinstance(h, str):
+        hh = [h[1:]]
+    else:
+        k = h[0][1:]
+        if k == 'I32':
+            hh = ['I32', h[1]]
+        elif k == 'Bin':
+            hh = ['Bin', _RBIN[h[1]]]
+        elif k == 'Un':
+            hh = ['Un', _RUN[h[1]]]
+        elif k == 'Cmp':
+            hh = ['Cmp', _RCMP[h[1]]]
+        elif k in ('Let', 'Ref', 'StreamMap', 'StreamFilter'):
+            hh = [k, names.var_back(h[1])]
+        elif k == 'StreamFold':
+            hh = [k, names.var_back(h[1]), names.var_back(h[2])]
+        elif k == 'MakeStruct':
+            hh = [k, [names.field_back(f) for f in h[1]]]
+        elif k == 'GetField':
+            hh = [k, names.field_back(h[1])]
+        else:
+            raise ReadError(f'unexpected head from the model: {h}')
+    return [hh, [coq_to_term(c, names) for c in cs]]
+
+
+def coq_to_value(v, names):
+    if v == 'VJunk':
+        return JUNK
+    if v[0] == 'VInt':
+        return ['int', v[1]]
+    if v[0] == 'VBool':
+        return ['bool', v[1]]
+    if v[0] == 'VArr':
+        return ['arr', [coq_to_value(x, names) for x in v[1]]]
+    if v[0] == 'VStruct':
+        return ['struct', [[names.field_back(f), coq_to_value(x, names)] for f, x in v[1]]]
+    raise ReadError(f'unexpected value from the model: {v}')
+
+
+def value_to_coq(v, names):
+    if v[0] == 'junk':
+        return 'VJunk'
+    if v[0] == 'int':
+        return f'(VInt ({v[1]}))'
+    if v[0] == 'bool':
+        return f'(VBool {"true" if v[1] else "false"})'
+    if v[0] == 'arr':
+        return '(VArr [' + '; '.join(value_to_coq(x, names) for x in v[1]) + '])'
+    return '(VStruct [' + '; '.join(f'({names.field(f)}, {value_to_coq(x, names)})' for f, x in v[1]) + '])'
